@@ -293,7 +293,7 @@ def afBytes (a : PacketAdaptationField) : Bytes :=
     ++ (if a.hasOPCR then pcrBytes (a.opcr.getD default) else [])
     ++ (if a.hasSplicingCountdown then [lowBits a.spliceCountdown 8] else [])
     ++ (if a.hasTransportPrivateData then
-          [lowBits a.transportPrivateDataLength 8] ++ (if a.transportPrivateDataLength > 0 then a.transportPrivateData else [])
+          [lowBits a.transportPrivateData.length 8] ++ a.transportPrivateData
         else [])
     ++ (if a.hasAdaptationExtensionField then afExtBytes (a.adaptationExtensionField.getD defaultExt) else [])
     ++ List.replicate a.stuffingLength.toNat 0xff
